@@ -235,10 +235,26 @@ func PropC13(c *vs.Case, f Factory, kind string) error {
 		body = rawBodies[c.Int(len(rawBodies))]
 		desc = fmt.Sprintf("raw body %q", body)
 		c.Class("raw-body")
-	default: // valid body, odd status code
+	default: // odd status code, with the valid body or with a long error page
 		body = string(bb)
-		code = []int{201, 204, 301, 304, 400, 404, 412, 429, 500, 503}[c.Int(10)]
+		code = []int{201, 204, 301, 304, 400, 404, 412, 429, 500, 503, 999}[c.Int(11)]
 		desc = fmt.Sprintf("valid body with HTTP %d", code)
+		if c.Prob(1, 3) {
+			// long bodies whose tail is not ASCII: whatever quotes or abbreviates them must cope
+			pages := []string{
+				strings.Repeat("x", 511) + "\u20ac",
+				strings.Repeat("x", 512) + "\x80",
+				strings.Repeat("\xbf", 600),
+				strings.Repeat("e", 1023) + "\u20ac" + "\xe2\x82",
+				strings.Repeat("<html>", 3000),
+				strings.Repeat("x", 255) + "\u00e9",
+				strings.Repeat("x", 1024) + "\xf0\x9f\x98",
+			}
+			k := c.Int(len(pages))
+			body = pages[k]
+			desc = fmt.Sprintf("HTTP %d with long error page #%d (%d bytes)", code, k, len(body))
+			c.Class("long-error-page")
+		}
 		c.Class("status-code")
 	}
 	c.Describe(func() any {
